@@ -524,8 +524,6 @@ impl<Store: StorageData> DbImpl<Store> {
                             .ids_mut()
                             .insert(&mut self.storage, &key_value.value, id)?;
                     }
-
-                    return Ok(());
                 }
             }
         }
